@@ -137,13 +137,42 @@ func ParseCheckpoint(chkpt []byte, origin string, logSigV note.Verifier, otherSi
 		others = append(others, keyOf(o))
 	}
 	Log(Ev{K: "Parse", B: [][]byte{chkpt, []byte(origin)}, U: []uint64{k}})
-	if !Valid(chkpt, origin, k, others) {
+	// note.Open: well formed, no line by an offered key that fails to verify, at least one that does
+	opens := And(WellFormed(chkpt), !BadSig(chkpt, k))
+	anySig := HasSig(chkpt, k)
+	for _, o := range others {
+		opens = And(opens, !BadSig(chkpt, o))
+		anySig = Or(anySig, HasSig(chkpt, o))
+	}
+	if !And(opens, anySig) {
 		return nil, nil, nil, errOpen
 	}
 	Assume(UFBool("hasNewline", chkpt)) // a signed note has at least two lines
 	textAxioms(chkpt)
 	Assume(SigLines(chkpt) >= 1)
 	Assume(SigLines(chkpt) <= 100)
+	// the opened note is handed back even when what follows refuses the checkpoint
+	n := &note.Note{Text: string(NoteText(chkpt))}
+	if HasSig(chkpt, k) {
+		n.Sigs = append(n.Sigs, note.Signature{Name: logSigV.Name(), Hash: logSigV.KeyHash(), Base64: UFStr("sigB64", chkpt, k)})
+	}
+	for i, o := range others {
+		if HasSig(chkpt, o) {
+			n.Sigs = append(n.Sigs, note.Signature{Name: otherSigVs[i].Name(), Hash: otherSigVs[i].KeyHash(), Base64: UFStr("sigB64", chkpt, o)})
+		}
+	}
+	verified := append([]uint64{k}, others...)
+	n.UnverifiedSigs = LazySigs(func() []note.Signature { return unverifiedSigs(chkpt, verified) })
+	noteRaw[n] = chkpt
+	if !HasSig(chkpt, k) {
+		return nil, nil, n, errNoLogSig
+	}
+	if !TextOK(chkpt) {
+		return nil, nil, n, errUnmarshal
+	}
+	if FirstLine(chkpt) != origin {
+		return nil, nil, n, errOrigin
+	}
 	if hostileOn {
 		// hostile-size harness: the sizes are dictated by the harness
 		if Eq(chkpt, hostileLatest) {
@@ -155,16 +184,6 @@ func ParseCheckpoint(chkpt []byte, origin string, logSigV note.Verifier, otherSi
 	Assume(CpSize(chkpt) == TextSize(NoteText(chkpt)))
 	Assume(Eq(CpHash(chkpt), TextHash(NoteText(chkpt))))
 	cp := &log.Checkpoint{Origin: origin, Size: CpSize(chkpt), Hash: CpHash(chkpt)}
-	n := &note.Note{Text: string(NoteText(chkpt))}
-	n.Sigs = append(n.Sigs, note.Signature{Name: logSigV.Name(), Hash: logSigV.KeyHash(), Base64: UFStr("sigB64", chkpt, k)})
-	for i, o := range others {
-		if HasSig(chkpt, o) {
-			n.Sigs = append(n.Sigs, note.Signature{Name: otherSigVs[i].Name(), Hash: otherSigVs[i].KeyHash(), Base64: UFStr("sigB64", chkpt, o)})
-		}
-	}
-	verified := append([]uint64{k}, others...)
-	n.UnverifiedSigs = LazySigs(func() []note.Signature { return unverifiedSigs(chkpt, verified) })
-	noteRaw[n] = chkpt
 	return cp, UFBytes("otherData", chkpt), n, nil
 }
 
